@@ -147,3 +147,37 @@ fn bnd_pb_map_len_btree() {
     kani::cover!(k != 0 && v == 0);
 }
 
+
+/// (complete) field keys: for every legal field number (1 ..= 2^29-1) and each of the six wire types, decode_key reads
+/// back exactly (field number, wire type) from the bytes encode_key wrote, consuming exactly key_len(tag) bytes with
+/// arbitrary data following -- in particular the two group wire types (3 = start, 4 = end) are not confused
+#[kani::proof]
+#[kani::unwind(12)]
+#[kani::stub(alloc::fmt::format, stub_format)]
+fn pb_key_roundtrip() {
+    let tag: u32 = kani::any();
+    kani::assume(tag >= 1 && tag <= (1 << 29) - 1);
+    let w: u8 = kani::any();
+    kani::assume(w <= 5);
+    let wt = match w { 0 => WireType::Varint, 1 => WireType::SixtyFourBit, 2 => WireType::LengthDelimited,
+                       3 => WireType::StartGroup, 4 => WireType::EndGroup, _ => WireType::ThirtyTwoBit };
+    let mut mem = [0u8; 8];
+    let n;
+    { let mut wr: &mut [u8] = &mut mem[..]; encoding::encode_key(tag, wt, &mut wr); n = 8 - wr.len(); }
+    assert!(n == encoding::key_len(tag));
+    // the key is the varint of (field number << 3 | wire type code of the encoding guide)
+    let key = ((tag as u64) << 3) | (w as u64);
+    let mut acc: u64 = 0;
+    let mut i = 0;
+    while i < n { acc |= ((mem[i] & 0x7f) as u64) << (7 * i); assert!((mem[i] >= 0x80) == (i + 1 < n)); i += 1; }
+    assert!(acc == key);
+    let t: u8 = kani::any();
+    mem[n] = t;
+    let mut r: &[u8] = &mem[..n + 1];
+    match decode_key(&mut r) {
+        Ok((t2, w2)) => { assert!(t2 == tag); assert!(w2 == wt); assert!(r.remaining() == 1); }
+        Err(_) => assert!(false),
+    }
+    kani::cover!(w == 3 && n == 5);
+    kani::cover!(w == 4 && n == 1);
+}
